@@ -222,6 +222,8 @@ def run(res, tier, seed, search):
     check_history(res, rng, "euclidean", "dense32", 0, ops=[("prepare",), ("update", 2, 3), ("update", 3, 0), ("query", 7), ("update", 0, 2), ("update", 1, 1), ("query", 3)])
     # an update that appends and replaces nothing (on a prepared index), then a round trip and a real update; stray row numbers
     check_history(res, rng, "euclidean", "dense32", 0, ops=[("query", 3), ("update", 0, 0), ("pickle",), ("query", 7), ("update", 2, 0, "stray"), ("query", 3), ("update", 0, 0), ("update", 1, 2), ("query", 7)])
+    # updates only, never prepared: whatever the accessors keep between two reads must not outlive an update
+    check_history(res, rng, "euclidean", "dense32", 0, ops=[("update", 2, 0), ("update", 0, 2), ("update", 1, 1), ("update", 0, 0), ("query", 3)])
     start = (seed * nm) % len(METRICS)
     for i in range(nh):
         metric, kind = METRICS[(start + i % nm) % len(METRICS)]
